@@ -362,13 +362,25 @@ fn byte_coverage<S: ShortGroupSignatureScheme + 'static>(em: &mut Emitter, rng: 
     values.push(("i64-min".into(), 2, NumberClaim::from(isize::MIN).into()));
     values.push(("r-minus-1".into(), 3, ScalarClaim::from(-Scalar::ONE).into()));
     values.push(("255".into(), 3, ScalarClaim::from(Scalar::from(255u64)).into()));
+    // shortest possible claim texts (encrypt-and-decrypt carries the text form): empty text, empty bytes, one byte
+    let mut empty_bytes = HashedClaim::from(Vec::<u8>::new());
+    empty_bytes.print_friendly = false;
+    values.push(("ved-empty-text".into(), 5, HashedClaim::from("").into()));
+    values.push(("ved-empty-bytes".into(), 5, empty_bytes.into()));
+    values.push(("ved-one-char".into(), 5, HashedClaim::from("x").into()));
+    values.push(("ved-zero-number".into(), 2, NumberClaim::from(0).into()));
     for (vi, (name, ci, claim)) in values.into_iter().enumerate() {
         if !em.thorough() && vi % 2 == 1 && vi < 9 {
             continue;
         }
-        let mut mix = Mix { n_creds: 1, n_claims: 5, age: 30, ..Default::default() };
+        let is_ved = name.starts_with("ved-");
+        let mut mix = Mix { n_creds: 1, n_claims: 6, age: 30, ..Default::default() };
         mix.disclosed = vec![vec![]];
-        mix.verenc = Some((ci, true));
+        if is_ved {
+            mix.ved = Some(ci);
+        } else {
+            mix.verenc = Some((ci, true));
+        }
         let mut scn = Scn::<S>::build(rng, &mix);
         let mut claims = scn.bundles[0].credential.claims.clone();
         claims[0] = RevocationClaim::from(format!("cov-{}", vi)).into();
@@ -400,6 +412,14 @@ fn byte_coverage<S: ShortGroupSignatureScheme + 'static>(em: &mut Emitter, rng: 
         match scn.create() {
             Out::Ok(p) if scn.verify(&p).is_ok() => {
                 for pr in p.proofs.values() {
+                    if let PresentationProofs::VerifiableEncryptionDecryption(v) = pr {
+                        match call(|| v.decrypt_and_verify(&sk)) {
+                            Out::Ok(c) if c == claim => em.count("decrypt_and_verify:ok"),
+                            Out::Ok(_) => em.violation("c10:ved-returns-other-claim", format!("{}: decrypt_and_verify returned another claim ({})", suite, name), replay.clone()),
+                            Out::Err => em.violation("c10:ved-decrypt-failed", format!("{}: decrypt_and_verify failed on an accepted honest proof of a very short claim ({})", suite, name), replay.clone()),
+                            Out::Panic(msg) => em.violation("c10:ved-decrypt-panic", format!("{}: decrypt_and_verify panicked: {}", suite, msg), replay.clone()),
+                        }
+                    }
                     if let PresentationProofs::VerifiableEncryption(v) = pr {
                         let got = call_opt(|| v.decrypt_scalar(&sk));
                         em.op(format!("ve.scalar {}", hexs(&m.to_be_bytes())), match &got {
